@@ -145,7 +145,7 @@ def run(ctx):
 
     # ---------------- (c) completed runs
     for cfg in cfgs:
-        res, tr, err, series = tu.execute(cfg, capture_kernel=False)
+        res, tr, err, series = tu.execute(cfg, capture_kernel=True)
         if err is not None or not tr.events or tr.events[-1]["phase"] != "relabel":
             ctx.count("runs_not_completed")
             ctx.case(("cfg", repr(sorted(cfg.items()))))
@@ -153,6 +153,31 @@ def run(ctx):
         final = tr.events[-1]["out"]
         from fast_ticc import data_preparation as dp
         stacked = dp.stack_training_data_multiple_series(series, cfg["W"])
+        # the table that drives label assignment, in EVERY round: minus the log-density of each window under each
+        # cluster's (mean, MRF) as they stand after that round's optimisation phase
+        rounds_ = tr.rounds()
+        for j, evs in enumerate(rounds_):
+            if j >= len(tr.kernel_calls) or evs[-1]["phase"] != "relabel" or evs[-2]["phase"] != "opt":
+                break
+            snap = evs[-2]["out_snap"]
+            table = tr.kernel_calls[j]["table"]
+            bad_cell = None
+            try:
+                for k, cs in enumerate(snap["clusters"]):
+                    theta = np.atleast_2d(cs["train"])
+                    mu = np.atleast_1d(cs["mean"])
+                    for p_ in range(0, stacked.shape[0], max(1, stacked.shape[0] // 25)):
+                        want = -indep_ll(stacked[p_], mu, theta)
+                        if not oracles.rel_close(table[p_, k], want, 1e-9, 1e-6):
+                            bad_cell = (p_, k, float(table[p_, k]), want)
+            except np.linalg.LinAlgError:
+                break
+            if bad_cell:
+                ctx.violation("impl-violation",
+                              f"round {j}: cost table entry {bad_cell[:2]} = {bad_cell[2]} is not minus the log-density {bad_cell[3]} "
+                              f"of that window under that cluster's fitted (mean, MRF)", cfg, {"site": "ll-drives-labelling"})
+                break
+            ctx.count("round_tables_checked")
         labels = [int(x) for x in final.point_labels]
         K = cfg["K"]
         try:
